@@ -73,9 +73,12 @@ FilesChoices ==
   CASE Scope = "twins"   -> {<<Twin1, Twin2>>, <<Twin2, Twin1>>}
     [] Scope = "subpkg"  -> {<<[proto |-> "lib", mod |-> "lib"]>>, <<[proto |-> "lib", mod |-> "lib"], [proto |-> "lib.admin", mod |-> "lib_admin"]>>}
     [] Scope = "ads"     -> {<<[proto |-> "lib", mod |-> "lib"]>>, <<[proto |-> "lib", mod |-> "lib"], [proto |-> "lib.admin", mod |-> "lib_admin"]>>}
-    [] Scope = "shapes"  -> Singles(FileTable \ {Twin2}) \cup {p \in Pairs(FileTable \ {Twin2}) : p[1].proto = "lib"}
+    \* pairs in both orders: the FIRST file holds the shared messages, the last one the services - with the special file first,
+    \* its types are referenced from another file
+    [] Scope = "shapes"  -> Singles(FileTable \ {Twin2}) \cup {p \in Pairs(FileTable \ {Twin2}) : p[1].proto = "lib" \/ p[2].proto = "lib"}
     [] Scope = "options" -> {<<[proto |-> "lib", mod |-> "lib"]>>}
-    [] OTHER             -> {<<[proto |-> "lib", mod |-> "lib"]>>, <<[proto |-> "lib", mod |-> "lib"], [proto |-> "import", mod |-> "import_"]>>}
+    [] OTHER             -> {<<[proto |-> "lib", mod |-> "lib"]>>, <<[proto |-> "lib", mod |-> "lib"], [proto |-> "import", mod |-> "import_"]>>,
+                             <<[proto |-> "import", mod |-> "import_"], [proto |-> "lib", mod |-> "lib"]>>}
 SvcChoices ==
   CASE Scope = "shapes"  -> {<<>>} \cup Singles(SvcTable) \cup Pairs(SvcTable)
     [] Scope = "options" -> Singles({[camel |-> "Library", snake |-> "library"]})
